@@ -51,6 +51,7 @@ const (
 	EvPanicKnown
 	EvDeadlockViolation
 	EvObserve
+	EvRace
 )
 
 type Event struct {
@@ -142,6 +143,7 @@ type pathState struct {
 	substMemo   map[int]*sym.Term
 	blobs       []*protoBlob
 	syncMaps    map[*value]*smap
+	race        *raceState
 }
 
 func (st *pathState) noteUninit(g *ssa.Global) {
